@@ -408,7 +408,8 @@ theorem Justified.complete_of_fits {c : Cfg} {it : Item} {o : Out} (h : Justifie
   | true => rfl
   | false => have := h.weak hc; rw [hf] at this; cases this
 
-/-- the first `k` elements of a list that fit... : two cuts of the same list are at the same index -/
+/-- a streamed list is cut at the FIRST read that fits no message: two justified cuts of the same list
+are at the same index -/
 theorem justified_cut_first {c : Cfg} {id whole empty : Nat} {elems : List Nat} {probe st stE k j : Nat}
     (hk : Justified c (.list id whole empty elems probe st stE) (.cut k))
     (hj : Justified c (.list id whole empty elems probe st stE) (.cut j)) : k = j := by
